@@ -288,6 +288,20 @@ func judgeObligations(m *Model, seqs map[seqKey][]*Attempt, sendResolvedOf func(
 					if fp, _ := split(p); !fp[mk] {
 						continue
 					}
+					// "told is firing" = the latest notification lists it as firing. A delivery that began before u, is
+					// still in flight at u and succeeds later without listing the alert as firing (it was muted when that
+					// flush began) becomes the latest word, and its log entry no longer knows the alert
+					superseded := false
+					for _, b := range s {
+						if b.OK() && !b.T.After(u) && b.Done.After(u) {
+							if fb, _ := split(b); !fb[mk] {
+								superseded = true
+							}
+						}
+					}
+					if superseded {
+						continue
+					}
 					if !p.Done.Before(r) && !p.Flush.Before(r) {
 						continue
 					}
